@@ -203,7 +203,7 @@ fn tops(a: &str, b: &str, a2: &str, b2: &str) -> Vec<(Ty, Ty)> {
     out
 }
 
-fn build_queries(tier: Tier) -> (Vec<Query>, Vec<String>) {
+pub fn build_queries(tier: Tier) -> (Vec<Query>, Vec<String>) {
     let mut qs: Vec<Query> = vec![];
     let mut notes = vec![];
     let empty = Env::new();
